@@ -1,1 +1,865 @@
-// G1 generator (filled in later)
+//! G1 — structured programs with a reference semantics: AST, renderer (with token positions) and a
+//! direct structural evaluator that never looks at bytecode.
+use crate::util::Rng;
+use std::collections::{BTreeMap, HashMap};
+
+pub type NodeId = u32;
+
+#[derive(Clone, Debug, PartialEq)]
+pub enum Val {
+    Int(i128),
+    Str(String),
+    Flag(bool),
+    Nil,
+}
+
+impl Val {
+    pub fn show(&self) -> String {
+        match self {
+            Val::Int(i) => format!("{}", i),
+            Val::Str(s) => format!("{:?}", s),
+            Val::Flag(b) => format!("{}", b),
+            Val::Nil => "nil".into(),
+        }
+    }
+    /// literal spelling in source
+    pub fn literal(&self) -> String {
+        match self {
+            Val::Int(i) => format!("{}", i),
+            Val::Str(s) => format!("\"{}\"", s),
+            Val::Flag(b) => format!("{}", b),
+            Val::Nil => "nil".into(),
+        }
+    }
+}
+
+#[derive(Clone, Debug)]
+pub enum Kind {
+    Lit(Val),
+    Prim(&'static str),
+    If(Vec<Node>, Option<Vec<Node>>),
+    /// arms: (code before `of`, body); default code
+    Case(Vec<(Vec<Node>, Vec<Node>)>, Vec<Node>),
+    BeginUntil(Vec<Node>),
+    /// (condition part, body)
+    BeginWhile(Vec<Node>, Vec<Node>),
+    BeginRepeat(Vec<Node>),
+    Break,
+    Do(Vec<Node>),
+    /// 0 = I, 1 = J, 2 = K
+    Idx(u8),
+    Def(usize, String, Vec<Node>),
+    Call(usize, String),
+    Local(String),
+    LocalGet(String),
+    VarDef(String),
+    VarSet(String),
+    VarGet(String),
+    /// a raw token the generator planted: (text, build-time error class it must raise)
+    Bad(String, &'static str),
+}
+
+#[derive(Clone, Debug)]
+pub struct Node {
+    pub id: NodeId,
+    pub kind: Kind,
+    /// set by the generator on loops it built to never terminate
+    pub infinite: bool,
+}
+
+impl Node {
+    pub fn new(id: NodeId, kind: Kind) -> Node {
+        Node { id, kind, infinite: false }
+    }
+}
+
+// ------------------------------------------------------------------ rendering
+
+#[derive(Clone, Debug, Default)]
+pub struct Rendered {
+    pub src: String,
+    /// (node id, sub-token) -> (byte offset, token text)
+    pub toks: HashMap<(NodeId, u8), (usize, String)>,
+}
+
+pub struct RenderOpts {
+    pub fancy_ws: bool,
+    pub comments: bool,
+}
+
+pub struct Renderer<'a> {
+    pub out: Rendered,
+    rng: &'a mut Rng,
+    opts: RenderOpts,
+}
+
+impl<'a> Renderer<'a> {
+    pub fn new(rng: &'a mut Rng, opts: RenderOpts) -> Renderer<'a> {
+        Renderer { out: Rendered::default(), rng, opts }
+    }
+
+    fn sep(&mut self) {
+        if self.out.src.is_empty() && !self.opts.fancy_ws {
+            return;
+        }
+        if !self.opts.fancy_ws {
+            self.out.src.push(' ');
+            return;
+        }
+        match self.rng.below(14) {
+            0 => self.out.src.push_str("\n"),
+            1 => self.out.src.push_str("\r\n"),
+            2 => self.out.src.push_str("\t"),
+            3 => self.out.src.push_str("  "),
+            4 => self.out.src.push_str(" \n  "),
+            5 if self.opts.comments => {
+                let c = ["\\ comment if then loop\n", "\\ caf\u{e9} \u{4e16}\u{754c}\r\n", "\\( multi\n line ; loop \\) "];
+                self.out.src.push(' ');
+                self.out.src.push_str(c[self.rng.below(c.len())]);
+            }
+            _ => self.out.src.push(' '),
+        }
+    }
+
+    fn tok(&mut self, id: NodeId, sub: u8, text: &str) {
+        self.sep();
+        let off = self.out.src.len();
+        self.out.src.push_str(text);
+        self.out.toks.insert((id, sub), (off, text.to_string()));
+    }
+
+    pub fn nodes(&mut self, ns: &[Node]) {
+        for n in ns {
+            self.node(n);
+        }
+    }
+
+    pub fn node(&mut self, n: &Node) {
+        let id = n.id;
+        match &n.kind {
+            Kind::Lit(v) => self.tok(id, 0, &v.literal()),
+            Kind::Prim(w) => self.tok(id, 0, w),
+            Kind::If(t, e) => {
+                self.tok(id, 0, "if");
+                self.nodes(t);
+                if let Some(e) = e {
+                    self.tok(id, 1, "else");
+                    self.nodes(e);
+                }
+                self.tok(id, 2, "then");
+            }
+            Kind::Case(arms, default) => {
+                self.tok(id, 0, "case");
+                for (k, (pre, body)) in arms.iter().enumerate() {
+                    self.nodes(pre);
+                    self.tok(id, 2 + 2 * k as u8, "of");
+                    self.nodes(body);
+                    self.tok(id, 3 + 2 * k as u8, "endof");
+                }
+                self.nodes(default);
+                self.tok(id, 1, "endcase");
+            }
+            Kind::BeginUntil(b) => {
+                self.tok(id, 0, "begin");
+                self.nodes(b);
+                self.tok(id, 1, "until");
+            }
+            Kind::BeginWhile(c, b) => {
+                self.tok(id, 0, "begin");
+                self.nodes(c);
+                self.tok(id, 1, "while");
+                self.nodes(b);
+                self.tok(id, 2, "repeat");
+            }
+            Kind::BeginRepeat(b) => {
+                self.tok(id, 0, "begin");
+                self.nodes(b);
+                self.tok(id, 1, "repeat");
+            }
+            Kind::Break => self.tok(id, 0, "break"),
+            Kind::Do(b) => {
+                self.tok(id, 0, "do");
+                self.nodes(b);
+                self.tok(id, 1, "loop");
+            }
+            Kind::Idx(k) => self.tok(id, 0, ["I", "J", "K"][*k as usize]),
+            Kind::Def(_, name, body) => {
+                self.tok(id, 0, ":");
+                self.tok(id, 1, name);
+                self.nodes(body);
+                self.tok(id, 2, ";");
+            }
+            Kind::Call(_, name) => self.tok(id, 0, name),
+            Kind::Local(name) => {
+                self.tok(id, 0, "local");
+                self.tok(id, 1, name);
+            }
+            Kind::LocalGet(name) => self.tok(id, 0, name),
+            Kind::VarDef(name) => {
+                self.tok(id, 0, "var");
+                self.tok(id, 1, name);
+            }
+            Kind::VarSet(name) => {
+                self.tok(id, 0, "!");
+                self.tok(id, 1, name);
+            }
+            Kind::VarGet(name) => self.tok(id, 0, name),
+            Kind::Bad(text, _) => self.tok(id, 0, text),
+        }
+    }
+}
+
+pub fn render(ns: &[Node], rng: &mut Rng, fancy: bool) -> Rendered {
+    let mut r = Renderer::new(rng, RenderOpts { fancy_ws: fancy, comments: fancy });
+    r.nodes(ns);
+    if fancy && r.rng.flip() {
+        r.out.src.push_str(if r.rng.flip() { "\n" } else { " " });
+    }
+    r.out
+}
+
+// ------------------------------------------------------------------ reference evaluator
+
+#[derive(Clone, Debug, PartialEq)]
+pub struct Fail {
+    pub class: &'static str,
+    pub node: NodeId,
+    pub sub: u8,
+}
+
+#[derive(Clone, Debug, Default)]
+pub struct Outcome {
+    pub fail: Option<Fail>,
+    /// failure was raised while building (nothing executed)
+    pub build_failure: bool,
+    pub stack: Vec<Val>,
+    pub vars: BTreeMap<String, Val>,
+    pub out: String,
+    pub steps: u64,
+    /// fuel ran out (or call depth exceeded): no verdict unless `inside_infinite`
+    pub exhausted: bool,
+    /// when exhausted: an enclosing active loop was built as structurally infinite
+    pub inside_infinite: bool,
+    /// a local was read before the generator-guaranteed initialisation (harness bug guard)
+    pub unspecified: bool,
+    pub max_call_depth: usize,
+    pub loop_indices_left: usize,
+}
+
+enum Ctl {
+    Fail(Fail),
+    Break,
+    Exhausted,
+}
+
+type R = Result<(), Ctl>;
+
+pub struct Evaluator<'a> {
+    pub stack: Vec<Val>,
+    loops: Vec<(i64, i64)>,
+    frames: Vec<HashMap<String, Val>>,
+    pub vars: BTreeMap<String, Val>,
+    pub out: String,
+    pub steps: u64,
+    fuel: u64,
+    defs: HashMap<usize, &'a [Node]>,
+    infinite_active: usize,
+    unspecified: bool,
+    max_call_depth: usize,
+    max_depth: usize,
+}
+
+fn fail<T>(class: &'static str, node: NodeId, sub: u8) -> Result<T, Ctl> {
+    Err(Ctl::Fail(Fail { class, node, sub }))
+}
+
+fn collect_defs<'a>(ns: &'a [Node], defs: &mut HashMap<usize, &'a [Node]>) {
+    for n in ns {
+        match &n.kind {
+            Kind::Def(id, _, body) => {
+                defs.insert(*id, body.as_slice());
+                collect_defs(body, defs);
+            }
+            Kind::If(t, e) => {
+                collect_defs(t, defs);
+                if let Some(e) = e {
+                    collect_defs(e, defs);
+                }
+            }
+            Kind::Case(arms, d) => {
+                for (p, b) in arms {
+                    collect_defs(p, defs);
+                    collect_defs(b, defs);
+                }
+                collect_defs(d, defs);
+            }
+            Kind::BeginUntil(b) | Kind::BeginRepeat(b) | Kind::Do(b) => collect_defs(b, defs),
+            Kind::BeginWhile(c, b) => {
+                collect_defs(c, defs);
+                collect_defs(b, defs);
+            }
+            _ => {}
+        }
+    }
+}
+
+/// first build-time failure in source order, if any
+fn first_bad(ns: &[Node]) -> Option<Fail> {
+    for n in ns {
+        let r = match &n.kind {
+            Kind::Bad(_, class) => Some(Fail { class, node: n.id, sub: 0 }),
+            Kind::Def(_, _, body) => first_bad(body),
+            Kind::If(t, e) => first_bad(t).or_else(|| e.as_ref().and_then(|e| first_bad(e))),
+            Kind::Case(arms, d) => {
+                let mut r = None;
+                for (p, b) in arms {
+                    r = first_bad(p).or_else(|| first_bad(b));
+                    if r.is_some() {
+                        break;
+                    }
+                }
+                r.or_else(|| first_bad(d))
+            }
+            Kind::BeginUntil(b) | Kind::BeginRepeat(b) | Kind::Do(b) => first_bad(b),
+            Kind::BeginWhile(c, b) => first_bad(c).or_else(|| first_bad(b)),
+            _ => None,
+        };
+        if r.is_some() {
+            return r;
+        }
+    }
+    None
+}
+
+/// Static well-formedness of an AST (used to keep shrunk programs inside the grammar the reference
+/// defines): names are defined before use, `break` is inside a loop of the same definition, `var`
+/// only at top level, `local` only inside a definition.
+pub fn well_formed(prog: &[Node]) -> bool {
+    struct Ck {
+        vars: Vec<String>,
+        defs: Vec<(usize, String)>,
+        ok: bool,
+    }
+    fn walk(c: &mut Ck, ns: &[Node], top: bool, in_def: bool, loops: usize, locals: &mut Vec<String>) {
+        for n in ns {
+            match &n.kind {
+                Kind::VarDef(name) => {
+                    if !top {
+                        c.ok = false;
+                    }
+                    c.vars.push(name.clone());
+                }
+                Kind::VarSet(name) | Kind::VarGet(name) => {
+                    if !c.vars.contains(name) {
+                        c.ok = false;
+                    }
+                }
+                Kind::Call(id, name) => {
+                    // the name must resolve (latest textual definition) to exactly this definition
+                    if c.defs.iter().rev().find(|d| &d.1 == name).map(|d| d.0) != Some(*id) {
+                        c.ok = false;
+                    }
+                }
+                Kind::Local(name) => {
+                    if !in_def {
+                        c.ok = false;
+                    }
+                    locals.push(name.clone());
+                }
+                Kind::LocalGet(name) => {
+                    if !locals.contains(name) {
+                        c.ok = false;
+                    }
+                }
+                Kind::Break => {
+                    if loops == 0 {
+                        c.ok = false;
+                    }
+                }
+                Kind::Def(id, name, body) => {
+                    c.defs.push((*id, name.clone()));
+                    let mut l = Vec::new();
+                    walk(c, body, false, true, 0, &mut l);
+                }
+                Kind::If(t, e) => {
+                    walk(c, t, false, in_def, loops, locals);
+                    if let Some(e) = e {
+                        walk(c, e, false, in_def, loops, locals);
+                    }
+                }
+                Kind::Case(arms, d) => {
+                    for (p, b) in arms {
+                        walk(c, p, false, in_def, loops, locals);
+                        walk(c, b, false, in_def, loops, locals);
+                    }
+                    walk(c, d, false, in_def, loops, locals);
+                }
+                // break is rejected inside begin..until and before `while`
+                Kind::BeginUntil(b) => walk(c, b, false, in_def, 0, locals),
+                Kind::BeginWhile(cond, b) => {
+                    walk(c, cond, false, in_def, 0, locals);
+                    walk(c, b, false, in_def, loops + 1, locals);
+                }
+                Kind::BeginRepeat(b) | Kind::Do(b) => walk(c, b, false, in_def, loops + 1, locals),
+                _ => {}
+            }
+        }
+    }
+    let mut c = Ck { vars: vec![], defs: vec![], ok: true };
+    let mut l = Vec::new();
+    walk(&mut c, prog, true, false, 0, &mut l);
+    c.ok
+}
+
+/// variables get a heap cell (nil) at build time even when nothing runs
+fn collect_vars(ns: &[Node], vars: &mut BTreeMap<String, Val>) {
+    for n in ns {
+        if let Kind::VarDef(name) = &n.kind {
+            vars.insert(name.clone(), Val::Nil);
+        }
+    }
+}
+
+impl<'a> Evaluator<'a> {
+    pub fn run(prog: &'a [Node], fuel: u64, init_stack: Vec<Val>, init_vars: BTreeMap<String, Val>) -> Outcome {
+        let mut defs = HashMap::new();
+        collect_defs(prog, &mut defs);
+        let mut ev = Evaluator {
+            stack: init_stack,
+            loops: vec![],
+            frames: vec![],
+            vars: init_vars,
+            out: String::new(),
+            steps: 0,
+            fuel,
+            defs,
+            infinite_active: 0,
+            unspecified: false,
+            max_call_depth: 0,
+            max_depth: 120,
+        };
+        let mut o = Outcome::default();
+        if !well_formed(prog) {
+            o.unspecified = true;
+            return o;
+        }
+        if let Some(f) = first_bad(prog) {
+            o.fail = Some(f);
+            o.build_failure = true;
+            o.stack = ev.stack;
+            o.vars = ev.vars;
+            return o;
+        }
+        collect_vars(prog, &mut ev.vars);
+        match ev.seq(prog) {
+            Ok(()) => {}
+            Err(Ctl::Fail(f)) => o.fail = Some(f),
+            Err(Ctl::Break) => {
+                // a break that escapes every loop cannot be generated (the compiler rejects it)
+                o.unspecified = true;
+            }
+            Err(Ctl::Exhausted) => {
+                o.exhausted = true;
+                o.inside_infinite = ev.infinite_active > 0;
+            }
+        }
+        o.stack = ev.stack;
+        o.vars = ev.vars;
+        o.out = ev.out;
+        o.steps = ev.steps;
+        o.unspecified |= ev.unspecified;
+        o.max_call_depth = ev.max_call_depth;
+        o.loop_indices_left = ev.loops.len();
+        o
+    }
+
+    fn tick(&mut self) -> R {
+        self.steps += 1;
+        if self.steps > self.fuel {
+            Err(Ctl::Exhausted)
+        } else {
+            Ok(())
+        }
+    }
+
+    fn pop(&mut self, n: &Node, sub: u8) -> Result<Val, Ctl> {
+        match self.stack.pop() {
+            Some(v) => Ok(v),
+            None => fail("underflow", n.id, sub),
+        }
+    }
+
+    fn cond(&mut self, n: &Node, sub: u8) -> Result<bool, Ctl> {
+        match self.pop(n, sub)? {
+            Val::Nil => Ok(false),
+            Val::Flag(b) => Ok(b),
+            _ => fail("type", n.id, sub),
+        }
+    }
+
+    fn seq(&mut self, ns: &[Node]) -> R {
+        for n in ns {
+            self.node(n)?;
+        }
+        Ok(())
+    }
+
+    fn node(&mut self, n: &Node) -> R {
+        self.tick()?;
+        match &n.kind {
+            Kind::Lit(v) => self.stack.push(v.clone()),
+            Kind::Prim(w) => self.prim(n, w)?,
+            Kind::If(t, e) => {
+                if self.cond(n, 0)? {
+                    self.seq(t)?;
+                } else if let Some(e) = e {
+                    self.seq(e)?;
+                }
+            }
+            Kind::Case(arms, default) => {
+                let mut matched = false;
+                for (k, (pre, body)) in arms.iter().enumerate() {
+                    self.seq(pre)?;
+                    let sub = 2 + 2 * k as u8;
+                    let a = self.pop(n, sub)?;
+                    let b = match self.stack.last() {
+                        Some(b) => b.clone(),
+                        None => return fail("underflow", n.id, sub),
+                    };
+                    if a == b {
+                        self.stack.pop();
+                        self.seq(body)?;
+                        matched = true;
+                        break;
+                    }
+                }
+                if !matched {
+                    self.seq(default)?;
+                }
+            }
+            Kind::BeginUntil(b) => {
+                if n.infinite {
+                    self.infinite_active += 1;
+                }
+                loop {
+                    match self.seq(b) {
+                        Err(Ctl::Break) => break,
+                        other => other?,
+                    }
+                    self.tick()?;
+                    if self.cond(n, 1)? {
+                        break;
+                    }
+                }
+                if n.infinite {
+                    self.infinite_active -= 1;
+                }
+            }
+            Kind::BeginWhile(c, b) => {
+                if n.infinite {
+                    self.infinite_active += 1;
+                }
+                loop {
+                    match self.seq(c) {
+                        Err(Ctl::Break) => break,
+                        other => other?,
+                    }
+                    self.tick()?;
+                    if !self.cond(n, 1)? {
+                        break;
+                    }
+                    match self.seq(b) {
+                        Err(Ctl::Break) => break,
+                        other => other?,
+                    }
+                }
+                if n.infinite {
+                    self.infinite_active -= 1;
+                }
+            }
+            Kind::BeginRepeat(b) => {
+                if n.infinite {
+                    self.infinite_active += 1;
+                }
+                loop {
+                    self.tick()?;
+                    match self.seq(b) {
+                        Err(Ctl::Break) => break,
+                        other => other?,
+                    }
+                }
+                if n.infinite {
+                    self.infinite_active -= 1;
+                }
+            }
+            Kind::Break => return Err(Ctl::Break),
+            Kind::Do(b) => {
+                let start = self.pop(n, 0)?;
+                let limit = self.pop(n, 0)?;
+                let start = match start {
+                    Val::Int(i) => i as isize as i64,
+                    _ => return fail("type", n.id, 0),
+                };
+                let limit = match limit {
+                    Val::Int(i) => i as isize as i64,
+                    _ => return fail("type", n.id, 0),
+                };
+                if start < limit {
+                    self.loops.push((start, limit));
+                    loop {
+                        match self.seq(b) {
+                            Err(Ctl::Break) => {
+                                // Break pops the loop record
+                                self.loops.pop();
+                                break;
+                            }
+                            other => other?,
+                        }
+                        self.tick()?;
+                        let l = self.loops.last_mut().expect("loop record");
+                        l.0 += 1;
+                        if l.0 >= l.1 {
+                            self.loops.pop();
+                            break;
+                        }
+                    }
+                }
+            }
+            Kind::Idx(k) => {
+                let len = self.loops.len();
+                if (*k as usize) < len {
+                    let v = self.loops[len - 1 - *k as usize].0;
+                    self.stack.push(Val::Int(v as i128));
+                } else {
+                    return fail("loop-underflow", n.id, 0);
+                }
+            }
+            Kind::Def(..) => {}
+            Kind::Call(id, _) => {
+                let body = match self.defs.get(id) {
+                    Some(b) => *b,
+                    None => {
+                        self.unspecified = true;
+                        return Ok(());
+                    }
+                };
+                if self.frames.len() >= self.max_depth {
+                    return Err(Ctl::Exhausted);
+                }
+                self.frames.push(HashMap::new());
+                self.max_call_depth = self.max_call_depth.max(self.frames.len());
+                // the loop stack is dynamic: a callee sees the caller's loops; a break cannot cross a call
+                let r = self.seq(body);
+                self.frames.pop();
+                match r {
+                    Err(Ctl::Break) => {
+                        self.unspecified = true;
+                    }
+                    other => other?,
+                }
+                self.tick()?; // Ret
+            }
+            Kind::Local(name) => {
+                let v = self.pop(n, 1)?;
+                match self.frames.last_mut() {
+                    Some(f) => {
+                        f.insert(name.clone(), v);
+                    }
+                    None => self.unspecified = true,
+                }
+            }
+            Kind::LocalGet(name) => match self.frames.last().and_then(|f| f.get(name)) {
+                Some(v) => self.stack.push(v.clone()),
+                None => {
+                    self.unspecified = true;
+                    self.stack.push(Val::Nil);
+                }
+            },
+            Kind::VarDef(name) => {
+                let v = self.pop(n, 1)?;
+                self.vars.insert(name.clone(), v);
+            }
+            Kind::VarSet(name) => {
+                let v = self.pop(n, 1)?;
+                self.vars.insert(name.clone(), v);
+            }
+            Kind::VarGet(name) => match self.vars.get(name) {
+                Some(v) => self.stack.push(v.clone()),
+                None => self.unspecified = true,
+            },
+            Kind::Bad(..) => self.unspecified = true,
+        }
+        Ok(())
+    }
+
+    fn int2(&mut self, n: &Node) -> Result<(i128, i128), Ctl> {
+        let b = self.pop(n, 0)?;
+        let a = self.pop(n, 0)?;
+        match (a, b) {
+            (Val::Int(a), Val::Int(b)) => Ok((a, b)),
+            _ => fail("type", n.id, 0),
+        }
+    }
+
+    fn flag2(&mut self, n: &Node) -> Result<(bool, bool), Ctl> {
+        let b = self.pop(n, 0)?;
+        let a = self.pop(n, 0)?;
+        match (a, b) {
+            (Val::Flag(a), Val::Flag(b)) => Ok((a, b)),
+            _ => fail("type", n.id, 0),
+        }
+    }
+
+    fn prim(&mut self, n: &Node, w: &str) -> R {
+        match w {
+            "dup" => match self.stack.last().cloned() {
+                Some(v) => self.stack.push(v),
+                None => return fail("underflow", n.id, 0),
+            },
+            "drop" => {
+                self.pop(n, 0)?;
+            }
+            "swap" => {
+                let len = self.stack.len();
+                if len < 2 {
+                    return fail("underflow", n.id, 0);
+                }
+                self.stack.swap(len - 1, len - 2);
+            }
+            "over" => {
+                let len = self.stack.len();
+                if len < 2 {
+                    return fail("underflow", n.id, 0);
+                }
+                let v = self.stack[len - 2].clone();
+                self.stack.push(v);
+            }
+            "rot" => {
+                // xeh's rot exchanges the first and the third item
+                let len = self.stack.len();
+                if len < 3 {
+                    return fail("underflow", n.id, 0);
+                }
+                self.stack.swap(len - 1, len - 3);
+            }
+            "depth" => {
+                let d = self.stack.len() as i128;
+                self.stack.push(Val::Int(d));
+            }
+            "+" => {
+                let (a, b) = self.int2(n)?;
+                self.stack.push(Val::Int(a.wrapping_add(b)));
+            }
+            "-" => {
+                let (a, b) = self.int2(n)?;
+                self.stack.push(Val::Int(a.wrapping_sub(b)));
+            }
+            "*" => {
+                let (a, b) = self.int2(n)?;
+                self.stack.push(Val::Int(a.wrapping_mul(b)));
+            }
+            "/" => {
+                let (a, b) = self.int2(n)?;
+                if b == 0 {
+                    return fail("div-zero", n.id, 0);
+                }
+                self.stack.push(Val::Int(a.wrapping_div(b)));
+            }
+            "rem" => {
+                let (a, b) = self.int2(n)?;
+                if b == 0 {
+                    return fail("div-zero", n.id, 0);
+                }
+                self.stack.push(Val::Int(a.wrapping_rem(b)));
+            }
+            "<" | "<=" | ">" | ">=" | "==" | "<>" => {
+                let (a, b) = self.int2(n)?;
+                let r = match w {
+                    "<" => a < b,
+                    "<=" => a <= b,
+                    ">" => a > b,
+                    ">=" => a >= b,
+                    "==" => a == b,
+                    _ => a != b,
+                };
+                self.stack.push(Val::Flag(r));
+            }
+            "and" | "or" => {
+                let (a, b) = self.flag2(n)?;
+                self.stack.push(Val::Flag(if w == "and" { a & b } else { a | b }));
+            }
+            "not" => match self.pop(n, 0)? {
+                Val::Flag(b) => self.stack.push(Val::Flag(!b)),
+                _ => return fail("type", n.id, 0),
+            },
+            "neg" => match self.pop(n, 0)? {
+                Val::Int(a) => match a.checked_neg() {
+                    Some(v) => self.stack.push(Val::Int(v)),
+                    None => return fail("int-overflow", n.id, 0),
+                },
+                _ => return fail("type", n.id, 0),
+            },
+            "equal?" => {
+                let a = self.pop(n, 0)?;
+                let b = self.pop(n, 0)?;
+                self.stack.push(Val::Flag(a == b));
+            }
+            "print" | "println" => {
+                let v = self.pop(n, 0)?;
+                self.out.push_str(&v.show());
+                if w == "println" {
+                    self.out.push('\n');
+                }
+            }
+            _ => self.unspecified = true,
+        }
+        Ok(())
+    }
+}
+
+// ------------------------------------------------------------------ structure statistics
+
+/// skeleton of the construct tree (for shape hashing) and nesting pairs
+pub fn skeleton(ns: &[Node], out: &mut String, pairs: &mut Vec<(&'static str, &'static str)>, parent: &'static str, depth: usize, max_depth: &mut usize) {
+    for n in ns {
+        let (name, kids): (&'static str, Vec<&[Node]>) = match &n.kind {
+            Kind::If(t, None) => ("if", vec![t]),
+            Kind::If(t, Some(e)) => ("ifelse", vec![t, e]),
+            Kind::Case(arms, d) => {
+                let mut k: Vec<&[Node]> = Vec::new();
+                for (p, b) in arms {
+                    k.push(p);
+                    k.push(b);
+                }
+                k.push(d);
+                ("case", k)
+            }
+            Kind::BeginUntil(b) => ("until", vec![b]),
+            Kind::BeginWhile(c, b) => ("while", vec![c, b]),
+            Kind::BeginRepeat(b) => ("repeat", vec![b]),
+            Kind::Do(b) => ("do", vec![b]),
+            Kind::Def(_, _, b) => ("def", vec![b]),
+            Kind::Break => ("break", vec![]),
+            Kind::Call(..) => ("call", vec![]),
+            Kind::Local(_) => ("local", vec![]),
+            _ => continue,
+        };
+        if matches!(name, "break" | "call" | "local") {
+            out.push_str(name);
+            out.push(' ');
+            continue;
+        }
+        *max_depth = (*max_depth).max(depth + 1);
+        pairs.push((parent, name));
+        out.push_str(name);
+        out.push('(');
+        for k in kids {
+            if k.is_empty() {
+                out.push('0');
+            }
+            skeleton(k, out, pairs, name, depth + 1, max_depth);
+            out.push('|');
+        }
+        out.push(')');
+    }
+}
